@@ -136,20 +136,34 @@ def run_sharded(tool, mode, scripts, timeout=1200, shards=NPROC):
     chunks = [scripts[i::shards] for i in range(shards)]
 
     def work(chunk):
-        try:
-            rc, out, err = run_tool(tool, mode, join_scripts(chunk), timeout)
-        except subprocess.TimeoutExpired as e:
-            out = e.stdout or ""
-            if isinstance(out, bytes):
-                out = out.decode(errors="replace")
-            res = dict(split_scripts(out))
-            for n, _ in chunk:
-                res.setdefault(n, ["HANG"])
-            return res
-        res = dict(split_scripts(out))
-        if rc != 0:
-            for n, _ in chunk:
-                res.setdefault(n, ["CRASH rc=%d %s" % (rc, err.strip()[-200:])])
+        res = {}
+        todo = list(chunk)
+        while todo:
+            try:
+                rc, out, err = run_tool(tool, mode, join_scripts(todo), timeout)
+            except subprocess.TimeoutExpired as e:
+                out = e.stdout or ""
+                if isinstance(out, bytes):
+                    out = out.decode(errors="replace")
+                rc, err = -9, "shard timeout"
+            got = dict(split_scripts(out))
+            res.update(got)
+            if rc == 0:
+                for n, _ in todo:
+                    res.setdefault(n, ["MISSING"])
+                break
+            # the tool stopped early (watchdog exit 3, crash, shard timeout): mark the first script
+            # without output and carry on with the ones after it
+            k = next((j for j, (n, _) in enumerate(todo) if n not in got), None)
+            if k is None:
+                break
+            if rc != 3:
+                res[todo[k][0]] = ["HANG" if rc == -9 else "CRASH rc=%d %s" % (rc, err.strip()[-200:])]
+                todo = todo[k + 1:]
+            else:
+                todo = todo[k:]
+                if todo and todo[0][0] in got:
+                    todo = todo[1:]
         return res
 
     res = {}
